@@ -58,7 +58,9 @@ Walk(t, s, l) ==
        ELSE IF ~InvAll(r.s) THEN [l |-> l, clause |-> "invariant_after_step"]
        ELSE Walk(t, r.s, l + 1)
 \* processes beyond t.np never start: mark them done
-StartState(t) == [S0 EXCEPT !.pc = [p \in TraceProcs |-> IF p <= t.np THEN "start" ELSE "done"]]
+StartState(t) == [S0 EXCEPT !.pc = [p \in TraceProcs |-> IF p <= t.np THEN "start" ELSE "done"],
+                            !.readBack = [p \in TraceProcs |-> IF p <= t.np THEN <<>> ELSE Data(p)],
+                            !.outDb = [p \in TraceProcs |-> IF p <= t.np THEN <<>> ELSE Import(p, Data(p))]]
 VARIABLES i, done
 TInit == i \in 1..Len(Traces) /\ done = FALSE /\ Init
 TNext == /\ ~done /\ done' = TRUE /\ i' = i /\ UNCHANGED vars
